@@ -15,7 +15,8 @@
    With a second argument it also writes, per request line, the hypotheses of the theorems of
    coq/Props/C17Share.v evaluated in the state the request meets:
 
-     k=<class> r=<sread_stored> t=<-|0|1: target stored and file_stable> wf=<wf_label> all=<all_stable> *)
+     k=<class> r=<sread_stored> t=<-|0|1: target stored and file_stable> wf=<wf_label> all=<all_stable>
+     post=<stable>/<stored files after the request> new=<stable>/<files the request stored> *)
 open Model
 open Conv
 open Convz
@@ -187,9 +188,13 @@ let () =
          let t = match target r with
            | None -> "-"
            | Some i -> (match lookup !s.ss_store i with None -> "-" | Some p -> b2s (file_stable !s p)) in
-         note (Printf.sprintf "k=%s r=%s t=%s wf=%s all=%s" (sclass (rclass_of r)) (b2s (sread_stored r)) t
-                 (b2s (wf_label !s r)) (b2s (all_stable !s)));
          let (s', SResp (c, st)) = sstep !s r in
+         let stored = List.length s'.ss_store in
+         let stable = List.length (List.filter (fun (_, p) -> file_stable s' p) s'.ss_store) in
+         let fresh = List.filter (fun (i, _) -> lookup !s.ss_store i = None) s'.ss_store in
+         let fresh_stable = List.length (List.filter (fun (_, p) -> file_stable s' p) fresh) in
+         note (Printf.sprintf "k=%s r=%s t=%s wf=%s all=%s post=%d/%d new=%d/%d" (sclass (rclass_of r)) (b2s (sread_stored r)) t
+                 (b2s (wf_label !s r)) (b2s (all_stable !s)) stable stored fresh_stable (List.length fresh));
          s := s';
          let nf = match c with NotFound -> int_of_n st | _ -> 0 in
          Printf.printf "nf=%d\t%s\n" nf (show_snapshot (snapshot s'))));
